@@ -31,7 +31,7 @@ def impl_oracle(c):
         return kind, "%s: %s" % (c["op"], o["crash"][:160])
     if c["op"] == "file":
         return J.file_oracle(c)
-    if c["op"] in ("reuse", "fhist", "bigrt"):
+    if c["op"] in ("reuse", "fhist", "bigrt", "reread"):
         return J.usage_oracle(c)
     if c["op"] == "gort":
         r = o.get("res")
@@ -139,6 +139,10 @@ def run(ck):
              "integer >= 256 in lexing/, jsonx/, strtoken/ as extracted by the translator: l-3 .. l+1 and 2l+1) and of "
              "64 KiB, 1 MiB-1, 1 MiB, 1 MiB+1, 3 MiB: a string, an all-escapes string, a quoted key, a bare key, a "
              "[]byte (one base64 string), an integer literal (up to 128 KiB) through Marshal -> Unmarshal and "
-             "WriteFile -> ReadFile (implementation only). Trivial = the value "
+             "WriteFile -> ReadFile (implementation only). Re-reading: WriteFile(v1), ReadFile, ReadFile again, "
+             "WriteFile(v2) of the same text length with the time stamp restored, rewrites through os.WriteFile, "
+             "another length, a second path with the same content, a text that does not parse, a series file - every "
+             "ReadFile / ReadFileMaybeJSON / ReadSeriesFile must return what the bytes on disk hold at that moment. "
+             "Trivial = the value "
              "nil; distinct = distinct (operation, json.Marshal of the value).",
         assumptions=["values are those json.Marshal can encode", "unicode.IsPrint(0x0A) = false"])
